@@ -98,15 +98,17 @@ func generateAsyncInitialization(pkg string, injector *Injector, varPool *VarPoo
 	var stmts []ast.Stmt
 
 	// Add errgroup import and mark it as used
-	if imp, exists := imports[errgroupPkgPath]; exists {
+	imp, exists := imports[errgroupPkgPath]
+	if exists {
 		imp.IsUsed = true // Mark as used since we're generating errgroup code
 	} else {
 		name := varPool.GetName(errgroupPkgName)
-		imports[errgroupPkgPath] = &Import{
+		imp = &Import{
 			Name:          name,
 			IsDefaultName: errgroupPkgName == name,
 			IsUsed:        true, // Mark as used since we're generating errgroup code
 		}
+		imports[errgroupPkgPath] = imp
 	}
 
 	// Find context parameter name if available
@@ -132,15 +134,16 @@ func generateAsyncInitialization(pkg string, injector *Injector, varPool *VarPoo
 	})
 
 	// Generate errgroup declaration
-	egDecl := generateErrGroupDeclaration(ctxParamName)
+	egDecl := generateErrGroupDeclaration(imp.Name, ctxParamName)
 	stmts = append(stmts, egDecl)
 
 	return stmts, nil
 }
 
 // generateErrGroupDeclaration creates the errgroup variable declaration
+// errgroupName is the name under which the errgroup package is imported in the generated file
 // ctxParamName is the name of the context parameter (empty string if no context)
-func generateErrGroupDeclaration(ctxParamName string) *ast.AssignStmt {
+func generateErrGroupDeclaration(errgroupName, ctxParamName string) *ast.AssignStmt {
 	if ctxParamName != "" {
 		return &ast.AssignStmt{
 			Lhs: []ast.Expr{
@@ -151,7 +154,7 @@ func generateErrGroupDeclaration(ctxParamName string) *ast.AssignStmt {
 			Rhs: []ast.Expr{
 				&ast.CallExpr{
 					Fun: &ast.SelectorExpr{
-						X:   ast.NewIdent("errgroup"),
+						X:   ast.NewIdent(errgroupName),
 						Sel: ast.NewIdent("WithContext"),
 					},
 					Args: []ast.Expr{ast.NewIdent(ctxParamName)},
@@ -168,7 +171,7 @@ func generateErrGroupDeclaration(ctxParamName string) *ast.AssignStmt {
 				Op: token.AND,
 				X: &ast.CompositeLit{
 					Type: &ast.SelectorExpr{
-						X:   ast.NewIdent("errgroup"),
+						X:   ast.NewIdent(errgroupName),
 						Sel: ast.NewIdent("Group"),
 					},
 				},
